@@ -241,9 +241,9 @@ def check_jsonl(c, st):
     for item in c['items']:
         if item[0] == 'obj':
             objs.append(item[1])
-            lines.append(json.dumps(item[1], ensure_ascii=False) + ' ' * item[2])
+            lines.append((item[3] if len(item) > 3 else '') + json.dumps(item[1], ensure_ascii=False) + ' ' * item[2])
         elif item[0] == 'blank':
-            lines.append(' ' * item[1])
+            lines.append(' ' * item[1] if isinstance(item[1], int) else item[1])
         elif item[0] == 'corrupt-bytes':
             lines.append('\udcff\udcfe{"cut": "\udce6\udc97')      # undecodable bytes (written via surrogateescape)
         elif item[1] == '<deep>':
@@ -263,9 +263,14 @@ def check_jsonl(c, st):
         f.write(text)
     ignore = c['ignore_errors']
     binary_only = any(i[0] == 'corrupt-bytes' for i in c['items'])
+    # blanks that only str.strip() knows about (U+3000, NBSP ...) make a line "blank" for text handles only
+    text_only = any((i[0] == 'blank' and isinstance(i[1], str) and not i[1].isascii()) or
+                    (i[0] == 'obj' and len(i) > 3 and not i[3].isascii()) for i in c['items'])
+    if text_only and binary_only:
+        return None
     st.monitor_evals += 1
     res = {}
-    for mode in (('rb',) if binary_only else ('r', 'rb')):
+    for mode in (('rb',) if binary_only else ('r',) if text_only else ('r', 'rb')):
         for rev in (False, True):
             kw = {'encoding': 'utf-8'} if mode == 'r' else {}
             fo = open(path, mode, **kw)
@@ -369,9 +374,11 @@ def gen(r):
             obj = r.choice([{'i': len(items)}, [1, 2, 3], 'str é', 5, None, {'ls': 'a\u2028b\u2029c\x85'}, {'k': 'v' * r.randint(0, 60)}, {'n': {'m': [len(items)]}}])
             pad = r.choice([0, 0, 0, 1, 3])
             items.append(['obj', obj, pad])
+            if r.random() < 0.08:
+                items[-1].append(r.choice(['\u3000', '\xa0 ', '\t', '  ', '\u2003']))      # indented, also with non-ASCII blanks
             size += len(json.dumps(obj)) + pad + 1
         elif k < 0.85:
-            items.append(['blank', r.choice([0, 0, 2])])
+            items.append(['blank', r.choice([0, 0, 2, '\u3000', '\xa0', ' \u2003 ', '\t'])])     # blank for str.strip()
             size += 1
         elif ignore:
             if r.random() < 0.25:
